@@ -1,6 +1,7 @@
 import Texel.Proofs.Chain
 import Texel.Proofs.Output
 import Texel.Proofs.ChainEdges
+import Texel.Proofs.NoCollapse
 import Texel.Model.RingF
 /-! # C04 — shape fidelity: nothing moves more than half a pixel, nothing is lost
 
@@ -68,6 +69,46 @@ theorem C04_routed_boundary_within_half_pixel (g : Grid) (hres : 0 < g.res) (rin
     exact ⟨s, hs, p, q, rfl, rfl, fun σ h0 h1 =>
       routed_run_within_half_pixel g (hotOf g addrs) s hres (hotOf_closed g addrs) l hl p q hp hq σ h0 h1⟩
   exact ⟨List.IsChain.imp (fun a b hc => key a b hc) h1, fun u v hu hv => key u v (h2 u v hu hv)⟩
+
+theorem nearInput_symm (g : Grid) (l : Nat) (ring : List Pt) (u v : P) (h : NearInput g l ring u v) : NearInput g l ring v u := by
+  obtain ⟨s, hs, p, q, hu, hv, hσ⟩ := h
+  refine ⟨s, hs, q, p, hv, hu, ?_⟩
+  intro σ h0 h1
+  obtain ⟨t, ht0, ht1, hx, hy⟩ := hσ (1 - σ) (by linarith) (by linarith)
+  refine ⟨t, ht0, ht1, ?_, ?_⟩
+  · have : (1 - σ) * g.cx l q + σ * g.cx l p = (1 - (1 - σ)) * g.cx l p + (1 - σ) * g.cx l q := by ring
+    rw [this]; exact hx
+  · have : (1 - σ) * g.cy l q + σ * g.cy l p = (1 - (1 - σ)) * g.cy l p + (1 - σ) * g.cy l q := by ring
+    rw [this]; exact hy
+
+/-- **C04, second clause, through the whole of `processLevel` when nothing collapses**: for a polygon without holes whose routed chain
+has at least three pixels and visits none twice, the ring that is returned is that chain (in one direction or the other), and every point
+of every one of its edges — the closing edge included — lies within half a pixel of the input ring -/
+theorem C04_edges_within_half_pixel_no_collapse (g : Grid) (hres : 0 < g.res) (ring : List Pt) (addrs : List Quad)
+    (hins : insertAll g [ring] = some addrs) (cfg : Config) (l : Nat) (hl : l ≤ g.depth) (chain : List P)
+    (hj : joinChain (routeRing g (hotOf g addrs) l (normaliseRing ring false)) = some chain)
+    (hnd : chain.Nodup) (hlen : 3 ≤ chain.length) (hhits : (ringHits (routeRing g (hotOf g addrs) l (normaliseRing ring false))).Nodup) :
+    ∃ r : List P, processLevel g (hotOf g addrs) cfg l [ring] = .ok (some #[#[r.toArray]]) ∧
+      List.IsChain (NearInput g l (normaliseRing ring false)) r ∧
+      ∀ u v, r.getLast? = some u → r.head? = some v → NearInput g l (normaliseRing ring false) u v := by
+  have hp := processLevel_plain g (hotOf g addrs) cfg l ring chain hj hnd hlen hhits
+  obtain ⟨hc1, hc2⟩ := C04_routed_boundary_within_half_pixel g hres [ring] addrs hins (normaliseRing ring false)
+    (fun v hv => by simpa using normaliseRing_mem ring false v hv) l hl chain hj
+  -- the chain the other way round
+  have hrev1 : List.IsChain (NearInput g l (normaliseRing ring false)) chain.reverse := by
+    rw [List.isChain_reverse]
+    exact List.IsChain.imp (fun a b hab => nearInput_symm g l _ a b hab) hc1
+  have hrev2 : ∀ u v, chain.reverse.getLast? = some u → chain.reverse.head? = some v → NearInput g l (normaliseRing ring false) u v := by
+    intro u v hu hv
+    rw [List.getLast?_reverse] at hu
+    rw [List.head?_reverse] at hv
+    exact nearInput_symm g l _ v u (hc2 v u hv hu)
+  -- which of the two is returned
+  by_cases hw : windingOK chain.toArray false = true <;> by_cases hr : cfg.reverse = true
+  · exact ⟨chain.reverse, by rw [hp]; simp [hw, hr], hrev1, hrev2⟩
+  · exact ⟨chain, by rw [hp]; simp [hw, hr], hc1, hc2⟩
+  · exact ⟨chain, by rw [hp]; simp [hw, hr], hc1, hc2⟩
+  · exact ⟨chain.reverse, by rw [hp]; simp [hw, hr], hrev1, hrev2⟩
 
 -- non-vacuity: a triangle on a 16×16 grid (res 4, depth 4) snapped at level 2 comes back with three vertices, each the pixel of its vertex
 #guard (snapPolygonF ⟨0, 0, 4, 4⟩ [[⟨2, 2⟩, ⟨50, 6⟩, ⟨30, 60⟩]] [2] ⟨false, false, false⟩).toOption.map (fun r => r.map fun e => (e.1, e.2.toList.map fun pg => pg.toList.map Array.toList))
